@@ -75,6 +75,8 @@ private:
 	asio::ip::tcp::socket m_server_connection;
 	// true while there is an outstanding write operation to the server
 	bool m_writing_to_server;
+	// true while the host name of the origin server is being resolved
+	bool m_resolving;
 
 	// receive buffer for requests from the client. i.e. client -> proxy (us) -> server
 	char m_client_in_buffer[65536];
